@@ -355,8 +355,79 @@ def r10e(ctx, P):
                    "score_tf passes the wrong value to bm25(): %s" % "; ".join(bad), Site(g, b).loc())
 
 
+def r10f(ctx, P):
+    rid = "R10.f"
+    from sa.rules.C25 import natural_loops
+    ctx.rule(rid, "ACCUMULATE (BM25's document length): the per-document field length the segment build writes to the `_len:<field>` "
+                  "column (the value given to FastFieldsWriter::set together with a key from doc_length_key) is assigned inside the "
+                  "loop over the field's values; every such in-loop definition must depend on the variable's previous value — a sum "
+                  "over all values of a multi-valued field, as the term frequencies are — and not overwrite it with the current "
+                  "value's count")
+    f = P.fn("searchlite_core::index::segment::SegmentWriter::<'a>::write_segment_stream")
+    if not ctx.anchor(rid, f, "SegmentWriter::write_segment_stream"):
+        return
+    ctx.saw(f)
+    sl = Slice(f, through_all_calls=True)
+    loops = natural_loops(f)
+    n = 0
+    for b, t in f.calls():
+        if not callee_of(t).endswith("FastFieldsWriter::set") or len(t["args"]) < 4:
+            continue
+        if not any(x[0] == "call" and callee_of(x[2]).endswith("fastfields::doc_length_key") for x in sl.sources(t["args"][1])):
+            continue
+        # the variable behind the value
+        var = None
+        for x in Slice(f).sources(t["args"][3]):
+            if x[0] == "agg" and (x[3].get("adt") or "").endswith("FastValue"):
+                for o in x[3]["ops"]:
+                    l = op_local(o)
+                    seen = set()
+                    while l is not None and l not in seen:
+                        seen.add(l)
+                        if f.locals[l].get("name"):
+                            var = l
+                            break
+                        dfs = [d for d in f.defs().get(l, []) if not d.get("partial")]
+                        if len(dfs) != 1 or dfs[0]["k"] != "assign" or dfs[0]["rv"]["k"] not in ("use", "cast"):
+                            break
+                        l = op_local(dfs[0]["rv"]["a"])
+        if var is None:
+            continue
+        n += 1
+        name = f.locals[var].get("name")
+        in_loop_defs = []
+        for d in f.defs().get(var, []):
+            # loops that contain the definition but not the write to the column: the loop over the values
+            for h, body in loops:
+                if d["b"] in body and b not in body:
+                    in_loop_defs.append(d)
+                    break
+        bad = []
+        for d in in_loop_defs:
+            if d["k"] == "call":
+                reads = set()
+                for a in d["t"]["args"]:
+                    reads |= sl.locals(a)
+            else:
+                rv = d["rv"]
+                ops = [rv["a"]] if rv["k"] in ("use", "cast", "unop") else ([rv["a"], rv["b"]] if rv["k"] == "binop" else rv.get("ops", []))
+                reads = set()
+                for a in ops:
+                    if isinstance(a, dict) and op_local(a) is not None:
+                        reads |= sl.locals(a)
+            if var not in reads:
+                bad.append(Site(f, d["b"], d.get("i", TERM)))
+        ctx.ob(rid, "%s:write_segment_stream:%s-accumulates" % (rid, name), bool(in_loop_defs) and not bad,
+               "`%s` is summed over the values of the field (%d in-loop definition(s))" % (name, len(in_loop_defs)) if in_loop_defs and not bad else
+               ("`%s` is overwritten at %s inside the loop over the field's values: the stored document length counts only the last value, "
+                "so BM25's length normalisation (doc_len and avgdl) is wrong for multi-valued text" % (name, bad[0].loc())) if bad else
+               "`%s` is not accumulated inside a loop over the field's values" % name, bad[0].loc() if bad else Site(f, b).loc())
+    ctx.floor(rid, n, 1, "document-length write (_len:<field>) in the segment build")
+
+
 def run(ctx, progs):
     P = progs.get("default")
+    r10f(ctx, P)
     r10a(ctx, P)
     r10b(ctx, P)
     r10c(ctx, P)
